@@ -103,6 +103,12 @@ def single_faults(tc: bool, tier: str) -> List[List]:
     for t in (-2 ** 31, -1, 10000, 2 ** 31 - 2, 2 ** 31 - 1):
         for mt in (P.MT_SUBSCRIBE, P.MT_UNSUBSCRIBE, P.MT_PAUSE_SUBSCRIPTION, P.MT_RESUME_SUBSCRIPTION):
             out.append(["raw", "connected", _frame(tc, mt, P.p_sub(t)).hex(), "none"])
+    # a client that subscribes (to everything, to the manager's log records) BEFORE it says CONNECT - the request is served - then
+    # connects and is gone at once (whatever the manager publishes about the newcomer is also addressed to the newcomer)
+    for sub in (P.ALL_MESSAGE_TYPES, P.LOG_TYPES[-2], P.MT_CLIENT_INFO):
+        for v2 in (True, False):
+            for end in ("fin", "rst", "none"):
+                out.append(["presub", sub, v2, end])
     # every control request from every protocol position (state left over from earlier requests)
     for pos in ("subscribed", "suball", "logger"):
         for mt in (P.MT_SUBSCRIBE, P.MT_UNSUBSCRIBE, P.MT_PAUSE_SUBSCRIPTION, P.MT_RESUME_SUBSCRIPTION):
@@ -275,6 +281,18 @@ def apply_fault(cx: Ctx, fault: Sequence, name: str = "X", hid=None) -> List[str
             # how == "accepted": TCP connection only
         w.settle(limit=4 * n + 50)
         return []
+    if kind == "presub":
+        _, sub, v2, end = fault
+        tc = cx.tc
+        X = position(cx, name, "accepted", hid)
+        X.send(_frame(tc, P.MT_SUBSCRIBE, P.p_sub(sub)))
+        w.settle()
+        X.send((_frame(tc, P.MT_CONNECT_V2, P.P_CONNECT_V2.pack(0, 0, 0, 44, 1, b"early")) if v2 else b"") + _frame(tc, P.MT_CONNECT, P.p_connect(0, 0)))
+        if end == "fin":
+            X.fin()
+        elif end == "rst":
+            X.rst()
+        return [name]
     if kind == "named-newcomer":
         # a listener to everything (the manager's own log records included) has reset its connection; in the same round a newcomer
         # introduces itself with an id and a name
@@ -684,7 +702,7 @@ def plan(tier: str):
     for tc, lvl, mon in envs:
         singles = single_faults(tc, tier)
         for f in singles:
-            for grace in ((1,) if f[0] not in ("wdie", "adie") else (0, 1, 2)):
+            for grace in ((1,) if f[0] not in ("wdie", "adie", "presub") else (0, 1, 2)):
                 cases.append((tc, lvl, mon, grace, False, [f], "single", 0))
         # pairs: same round (every service order, both hash orders) and consecutive rounds
         if tier == "quick":
